@@ -185,7 +185,12 @@ def run(ctx):
     sq.start()
     try:
         async def main():
-            return await escen.gather_limited([realise(ctx, sq, i + 1, s, random.Random(ctx.seed * 100003 + i)) for i, s in enumerate(scens * (12 if ctx.thorough else 1))], limit=10)
+            todo = scens * (4 if ctx.thorough else 1)
+            res_ = []
+            for b in range(0, len(todo), 600):          # in batches: short transactions by the ten thousand exhaust the ephemeral ports
+                await escen.wait_for_ports()
+                res_ += await escen.gather_limited([realise(ctx, sq, b + i + 1, s, random.Random(ctx.seed * 100003 + b + i)) for i, s in enumerate(todo[b:b + 600])], limit=10)
+            return res_
         out = [o for o in asyncio.run(main()) if o]
         if not sq.alive():
             ctx.violation('squid exited during the run', {'kind': 'exit', 'log': sq.tail_log()})
